@@ -345,6 +345,10 @@ impl Hist for Cfg {
         v
     }
 
+    fn config_name(&self) -> String {
+        self.describe()
+    }
+
     fn run(&self, hist: &[Op], stats: &mut Stats) -> Verdict {
         clock::reset();
         let spy = Spy::new(self.w, self.h, self.vt);
